@@ -293,7 +293,91 @@ fn after_error(e: &LibErr, input: &str, out: &mut Vec<Violation>) {
     }
 }
 
+// ---------------------------------------------------------------- non-termination
+//
+// The property includes "no non-terminating loop". A worker that is inside the library for longer than
+// HANG_LIMIT seconds on one (at most a few KB long) input is reported as a violation with that input as
+// the replay case; ordinary cases take micro- to milliseconds, so the limit is four to five orders of
+// magnitude above anything load can explain. (The stuck thread cannot be stopped: the process reports
+// and exits.)
+use std::collections::HashMap;
+use std::sync::{Mutex, OnceLock};
+use std::thread::ThreadId;
+use std::time::Instant;
+
+static INFLIGHT: OnceLock<Mutex<HashMap<ThreadId, (Instant, String)>>> = OnceLock::new();
+static MONITORING: std::sync::atomic::AtomicBool = std::sync::atomic::AtomicBool::new(false);
+
+pub fn hang_limit_s() -> u64 {
+    std::env::var("VERIF_HANG_S")
+        .ok()
+        .and_then(|s| s.parse().ok())
+        .unwrap_or(120)
+}
+
+fn inflight() -> &'static Mutex<HashMap<ThreadId, (Instant, String)>> {
+    INFLIGHT.get_or_init(|| Mutex::new(HashMap::new()))
+}
+
+pub fn hang_signature(kind: &str) -> String {
+    format!("C07|hang|{kind}")
+}
+
 pub fn oracle(c: &TotalCase, obs: &mut Obs) -> Vec<Violation> {
+    let on = MONITORING.load(std::sync::atomic::Ordering::Relaxed);
+    let tid = std::thread::current().id();
+    if on {
+        let desc = serde_json::to_string(c).unwrap_or_default();
+        inflight().lock().unwrap().insert(tid, (Instant::now(), desc));
+    }
+    let out = oracle_inner(c, obs);
+    if on {
+        inflight().lock().unwrap().remove(&tid);
+    }
+    out
+}
+
+/// Watches the in-flight table while `body` runs; a case over the limit ends the process with a
+/// VIOLATION (or KNOWN-FINDING) line, the replay file and the evidence written so far.
+fn with_hang_monitor(ctx: &Ctx, body: &(dyn Fn() + Sync)) {
+    let done = std::sync::atomic::AtomicBool::new(false);
+    let limit = hang_limit_s();
+    MONITORING.store(true, std::sync::atomic::Ordering::SeqCst);
+    std::thread::scope(|s| {
+        s.spawn(|| {
+            while !done.load(std::sync::atomic::Ordering::SeqCst) {
+                std::thread::sleep(std::time::Duration::from_millis(500));
+                let stuck: Option<(u64, String)> = inflight()
+                    .lock()
+                    .unwrap()
+                    .values()
+                    .filter(|(t, _)| t.elapsed().as_secs() >= limit)
+                    .map(|(t, d)| (t.elapsed().as_secs(), d.clone()))
+                    .next();
+                if let Some((secs, desc)) = stuck {
+                    let case: Value = serde_json::from_str(&desc).unwrap_or(Value::Null);
+                    let kind = case["kind"].as_str().unwrap_or("?").to_string();
+                    let sig = hang_signature(&kind);
+                    let detail = format!(
+                        "an entry point did not return within {secs} s on a {}-byte input (target {})",
+                        case["input"].as_str().map(|x| x.len()).unwrap_or(0),
+                        case["target"].as_str().unwrap_or("?")
+                    );
+                    let mut obs = Obs::default();
+                    ctx.report(&mut obs, "mutated-inputs", viol(sig, detail), &|| case.clone());
+                    ctx.total.lock().unwrap().merge(obs);
+                    let code = ctx.finish();
+                    std::process::exit(code);
+                }
+            }
+        });
+        body();
+        done.store(true, std::sync::atomic::Ordering::SeqCst);
+    });
+    MONITORING.store(false, std::sync::atomic::Ordering::SeqCst);
+}
+
+fn oracle_inner(c: &TotalCase, obs: &mut Obs) -> Vec<Violation> {
     let mut out = Vec::new();
     obs.class(&format!("{}:{}", c.kind, c.mutation));
     if c.input.len() > 1 {
@@ -482,6 +566,8 @@ pub fn run(ctx: &Ctx) {
     ctx.add_rule("valid messages / block-4 texts / field contents / headers / message JSON of all types with one text mutation (truncation, insertion or replacement of ASCII structure characters and 2-, 3-, 4-byte characters at boundary and random offsets, range deletion/duplication, structural soup) given to every public entry point (parse_auto, parse::<T>, parse_with_errors, extract_block 0..6, parse_from_block4, legacy field map + tracker + sequences, 114 field parsers with and without variant, 4 header parsers, from_value + serialisation + Display, the 3 text-taking plugin functions) and, on every value obtained, to serialisation, validation, JSON conversion; on every error, to all renderings; plus size-scaling families up to 16 KB (1 MB in thorough); oracle: catch_unwind => no panic; non-trivial = input longer than one character; distinct by (entry kind, target, input)");
     ctx.assume("panic signature = (panic kind, innermost library frame from the symbolised backtrace), line numbers excluded");
     ctx.assume("time: only gross super-quadratic growth is judged (16 KB within 60 s, doubling ratio <= 12 when above 0.5 s)");
+    ctx.assume(&format!("non-termination: one case (input of at most a few KB) that keeps an entry point busy for {} s is a violation; such cases otherwise take micro- to milliseconds", hang_limit_s()));
+    with_hang_monitor(ctx, &|| {
     let to_json = |c: &TotalCase| serde_json::to_value(c).unwrap();
     ctx.run_generated(
         "mutated-inputs",
@@ -505,6 +591,7 @@ pub fn run(ctx: &Ctx) {
             .collect();
         ctx.run_enumerated("corpus", 1, &|_| cases.clone(), &oracle, &to_json);
     }
+    });
     ctx.run_shards("scaling", 1, &|_, obs| {
         for v in scaling(ctx, obs) {
             ctx.report(obs, "scaling", v, &|| json!({"kind": "scaling"}));
@@ -514,7 +601,26 @@ pub fn run(ctx: &Ctx) {
 
 pub fn replay(_ctx: &Ctx, _sub: &str, case: &Value) -> Vec<Violation> {
     match serde_json::from_value::<TotalCase>(case.clone()) {
-        Ok(c) => oracle(&c, &mut Obs::default()),
+        Ok(c) => {
+            // run on a second thread so that a non-terminating case is reported instead of hanging the replay
+            let (tx, rx) = std::sync::mpsc::channel();
+            let c2 = c.clone();
+            std::thread::spawn(move || {
+                let _ = tx.send(oracle_inner(&c2, &mut Obs::default()));
+            });
+            match rx.recv_timeout(std::time::Duration::from_secs(hang_limit_s())) {
+                Ok(v) => v,
+                Err(_) => vec![viol(
+                    hang_signature(&c.kind),
+                    format!(
+                        "an entry point did not return within {} s on a {}-byte input (target {})",
+                        hang_limit_s(),
+                        c.input.len(),
+                        c.target
+                    ),
+                )],
+            }
+        }
         Err(_) => Vec::new(),
     }
 }
